@@ -50,4 +50,33 @@ VARIANTS = [
       "fill_where_below(absmax(motion), periods, dt * 6, sas)  # too few steps per cycle: report PGA\n    return sds, svs, sas\n\n\ndef response_series", None),
     X("C17", "C17-t2-3", "sum-term-exponent", G, "terms = [cof * x ** (poly_fit - co) for co, cof in enumerate(cofs)]", "terms = [cof * x ** co for co, cof in enumerate(cofs)]", "R-POLY-SIB"),
     X("C09", "C09-t2-3", "out-slice-misplaced", IM, "out=delta_energy[1:])", "out=delta_energy[:-1])", None),
+    # ---- round 4 designs
+    X("C15", "C15-t4-1", "reversed-slice-not-reversed", ST, "np.conj(ss[:0:-1])", "np.conj(ss[1:])", "R-ST-LIN"),
+    X("C15", "C15-t4-2", "descending-axis-off-by-one", ST, "np.arange(points, 0, -1) / (2 * points * dt)", "np.arange(points - 1, -1, -1) / (2 * points * dt)", "R-ST-AXIS"),
+    X("C15", "C15-t4-2", "descending-axis-flipped-twice", ST, "    return np.arange(points, 0, -1) / (2 * points * dt)", "    return np.flipud(np.arange(points, 0, -1) / (2 * points * dt))", "R-ST-AXIS"),
+    X("C15", "C15-t4-3", "open-rows-wrong-end", ST, "    return diag_con[1:]  # first line is zero frequency", "    return diag_con[:-1]  # first line is zero frequency", "R-ST-SIB"),
+    X("C15", "C15-t4-3", "closure-fft-length", ST, "        return fft(x, n, overwrite_x=True)", "        return fft(x, n + 1, overwrite_x=True)", "R-ST-SIB"),
+    X("C03", "C03-t4-3", "named-cut-constant", SD, "MIN_STEPS_PER_PERIOD = 6", "MIN_STEPS_PER_PERIOD = 5", "R-CUT"),
+    X("C03", "C03-t4-3", "helper-w-half", SD, "        w[1:] = 2 * np.pi / periods[1:]\n        return w", "        w[1:] = np.pi / periods[1:]\n        return w", "R-PSEUDO"),
+    X("C16", "C16-t4-1", "named-header-count", L, "_N_HEADER_LINES = 2", "_N_HEADER_LINES = 1", "R-FMT-LAYOUT"),
+    X("C16", "C16-t4-2", "named-value-format", L, '_VALUE_FORMAT = "%.6f"', '_VALUE_FORMAT = "%.3f"', "R-FMT-PREC"),
+    X("C18", "C18-t4-2", "merged-loops-signs-swapped", M, "((1, om, bm[0:-steps]), (-1, bm, om[0:-steps]))", "((-1, om, bm[0:-steps]), (1, bm, om[0:-steps]))", "R-LAGSEARCH"),
+    X("C18", "C18-t4-2", "merged-loops-same-record", M, "((1, om, bm[0:-steps]), (-1, bm, om[0:-steps]))", "((1, om, bm[0:-steps]), (-1, om, bm[0:-steps]))", "R-LAGSEARCH"),
+    X("C07", "C07-t4-2", "inplace-power-three", F, "    wb_vals **= 4\n", "    wb_vals **= 3\n", "R-KO-NONNEG"),
+    X("C07", "C07-t4-2", "masked-store-zero", F, "    wb_vals[at_centre] = 1\n", "    wb_vals[at_centre] = 0\n", "R-KO-NONNEG"),
+    X("C20", "C20-t4-1", "upper-is-lower-plus-two", G, "np.minimum(ind_below + 1, len(xf) - 1)", "np.minimum(ind_below + 2, len(xf) - 1)", "R-I2D"),
+    X("C20", "C20-t4-2", "pad-one-too-many", "eqsig/fns/average.py", "        return 0, steps - 1\n", "        return 0, steps\n", "R-ROLL"),
+    X("C20", "C20-t4-2", "pad-reflect", "eqsig/fns/average.py", "mode='edge')", "mode='reflect')", "R-ROLL"),
+    X("C20", "C20-t4-2", "zero-led-sum-without-zero", "eqsig/fns/average.py", "np.concatenate([[0.0], np.cumsum(x_ext, dtype=float)])", "np.concatenate([[1.0], np.cumsum(x_ext, dtype=float)])", "R-ROLL"),
+    X("C20", "C20-t4-3", "default-split-other-power", "eqsig/fns/average.py", "err, _, _ = _step_fn_fit(np.array(values), pow=1)", "err, _, _ = _step_fn_fit(np.array(values), pow=2)", "R-STEP-LEVELS"),
+    X("C12", "C12-t4-1", "seed-placeholder", PK, "    peak_values_set = [last]\n", "    peak_values_set = [0]\n", "R-SW-COVER"),
+    X("C17", "C17-t4-3", "clipped-window-short", "eqsig/fns/average.py", "values[max(i - half, 0):i + half + 1]", "values[max(i - half, 0):i + half]", "R-RA-SIB"),
+    X("C17", "C17-t4-3", "clipped-window-lower-one", "eqsig/fns/average.py", "values[max(i - half, 0):i + half + 1]", "values[max(i - half, 1):i + half + 1]", "R-RA-SIB"),
+    X("C17", "C05-t4-3", "chunk-tail-shifted", S, "            chunk = values[i - half_width:]\n", "            chunk = values[i - half_width + 1:]\n", "R-RA-SIB"),
+    X("C05", "C17-t4-3", "helper-writes-its-input", "eqsig/fns/average.py", "        out[i] = np.mean(values[max(i - half, 0):i + half + 1])", "        values[i] = np.mean(values[max(i - half, 0):i + half + 1])", "R-NOMUT"),
+    X("C11", "C11-t4-2", "half-cycle-quarter", PK, "    n_cycs = 0.5 * np.arange(n_indices) + offset\n", "    n_cycs = 0.25 * np.arange(n_indices) + offset\n", "R-NCYC"),
+    X("C11", "C11-t4-2", "first-not-reset", PK, "    n_cycs[:1] = 0.0  # counting always starts from zero at the first sample\n", "    n_cycs[:1] = 0.5  # counting always starts from zero at the first sample\n", "R-NCYC"),
+    X("C06", "C06-t4-3", "returned-grid-missing-two", F, "np.arange(points) / (2 * points * dt)", "np.arange(points) / (points * dt)", "R-FAS-TYPE"),
+    X("C14", "C14-t4-3", "helper-floor", "eqsig/fns/time_step.py", "    return int(np.ceil(new_npts))  # a partially covered last step is kept", "    return int(np.floor(new_npts))  # a partially covered last step is kept", None),
+    X("C19", "C19-t4-1", "shift-sign", TS, "        first = start_extras + shift  # column where the shifted copy of values starts", "        first = start_extras - shift  # column where the shifted copy of values starts", None),
 ]
